@@ -57,7 +57,10 @@ class BoundedStream(io.IOBase):
         return self
 
     def __next__(self) -> bytes:
-        return next(self.stream)
+        line = self.readline()
+        if not line:
+            raise StopIteration
+        return line
 
     next = __next__
 
@@ -84,8 +87,16 @@ class BoundedStream(io.IOBase):
         if size is None or size == -1 or size > self._bytes_remaining:
             size = self._bytes_remaining
 
-        self._bytes_remaining -= size
-        return target(size)
+        result = target(size)
+        if size > 0 and not result:
+            # NOTE: The underlying stream ended before Content-Length bytes
+            #   could be read; there is nothing more to wait for.
+            self._bytes_remaining = 0
+        else:
+            # NOTE: Only deduct what was actually consumed from the underlying
+            #   stream; a line-oriented read may return less than requested.
+            self._bytes_remaining -= len(result)
+        return result
 
     def readable(self) -> bool:
         """Return ``True`` always."""
@@ -139,7 +150,21 @@ class BoundedStream(io.IOBase):
 
         """
 
-        return self._read(hint, self.stream.readlines)
+        if hint is None or hint < 0:
+            hint = 0
+
+        lines: List[bytes] = []
+        total = 0
+        while True:
+            line = self.readline()
+            if not line:
+                break
+            lines.append(line)
+            total += len(line)
+            if 0 < hint <= total:
+                break
+
+        return lines
 
     def write(self, data: bytes) -> None:
         """Raise IOError always; writing is not supported."""
